@@ -15,7 +15,8 @@ ops
   `cells point <bits>` `cells path <bits>` `cells area <rows>` `cells other`
   `cap point <b>` `cap path <b>` `cap area <polys>` `cap other`
   `point point <b>` `point path <b>` `point area <bits>` `point other`
-  `line point <b>` `line path <b>` `line area <rows>` `line other`
+  `line n=<k> point <b>` `line n=<k> path <b>` `line n=<k> area <rows>` `line n=<k> other`   (k = vertices of the query polyline)
+  `might`                 (b6.MightIntersect.Matches on a feature: constantly true)
   `mp point <bits>` `mp path <rows>` `mp area <rows>` `mp other`
   `feat <sameID> empty`  |  `feat <sameID> point|line|mp <kind> [<table>]`
   `pip <loops> <x,y>`     loops separated by `|`, vertices `x,y` separated by `;` (E7 integers); answer = S2's
@@ -139,10 +140,12 @@ def step (_ : Unit) (op impl : String) : Unit × Verdict :=
     match parsePointTable rest with
     | some t => ((), judge impl (renderB (pointIntersectsFeature t)) (renderB (B6.Spec.SpatialPred.point t)) "point")
     | none => ((), .bad)
-  | "line" :: rest =>
-    match parseLineTable rest with
-    | some t => ((), judge impl (renderB (polylineIntersectsFeature t)) (renderB (B6.Spec.SpatialPred.line t)) "polyline")
-    | none => ((), .bad)
+  | "line" :: nq :: rest =>
+    match (if nq.startsWith "n=" then (sdrop nq 2).toNat? else none), parseLineTable rest with
+    | some n, some t =>
+      ((), judge impl (renderO (intersectsPolylineMatches true n t)) (renderB (B6.Spec.SpatialPred.lineQuery n t)) "polyline")
+    | _, _ => ((), .bad)
+  | ["might"] => ((), judge impl (renderB mightIntersectMatches) "true" "might-intersect")
   | "mp" :: rest =>
     match parseMpTable rest with
     | some t => ((), judge impl (renderB (multiPolygonIntersectsFeature true t)) (renderB (B6.Spec.SpatialPred.mp t)) "multipolygon")
